@@ -59,6 +59,12 @@ def gen(rng, tier):
         k = max(range(nt), key=lambda i: len(trajs[i]))
         yield {'trajs': trajs, 'lag': rng.choice([1, 2, 3]), 'S': [present[0]], 'F': [present[-1]], 'perm': perm,
                'cut': [k, rng.randint(0, len(trajs[k]))], 'alpha': 'size-' + tag, 'light': True, 'nosingle': True}
+    for _ in range(4 if tier == 'quick' else 60):
+        # the chain used for sampling: two trajectories whose junction pair x>z occurs nowhere inside them
+        from props import c18
+        trajs, labs, akind = c18._junction(rng)
+        yield {'trajs': trajs, 'lag': 1, 'S': [labs[0]], 'F': [labs[2]], 'perm': [1, 0], 'cut': [0, len(trajs[0]) // 2],
+               'alpha': akind + '+junction', 'light': True, 'junction': [labs[0], labs[2]], 'seed': rng.randrange(10**6)}
     for _ in range(1 if tier == 'quick' else 4):      # a trajectory of more than 2^16 frames
         labs, akind = G.alphabet(rng, k=3)
         long_t = G.traj(rng, labs, rng.randint(66000, 70000), sticky=0.7)
@@ -115,6 +121,20 @@ def impl(case):
            'cut': battery(A(_cutset(case), _cutidx(case)), case['lag'], case['S'], case['F'], which=['emm']),
            'single': [battery(A([t], [i]), case['lag'], case['S'], case['F'], which=['coring', 'wt', 'paths'])
                       for i, t in enumerate(trajs)] if len(trajs) <= 12 else None}
+    if case.get('junction'):
+        # sampling treats the trajectories as independent pieces too: after the SAME frames were sampled as one
+        # joined trajectory, the chain for the two pieces never takes the step seen only across their boundary
+        import msmhelper as mh
+        from msmhelper.msm import timescales as ts
+        from props import c18
+        x, z = case['junction']
+        if c18._seed_numba is None:
+            c18.impl_init()
+        c18._reseed(case['seed'])
+        ts.propagate_MCMC([np.concatenate(A(trajs))], 1, 50)
+        c18._reseed(case['seed'])
+        chain = [int(v) for v in ts.propagate_MCMC(A(trajs), 1, 4000)]
+        out['junction_step'] = any(a == x and b == z for a, b in zip(chain, chain[1:]))
     # one StateTraj object shared by a sequence of analyses (coring first): later results on the same
     # object must still be those of the original trajectories
     import msmhelper as mh
@@ -188,6 +208,9 @@ def judge(case, ibc, answers):
             if not _close(b[name], p[name]):
                 P('impl-vs-spec', '%s changes when the trajectories are reordered: %s vs %s' % (
                     name, C.short(b[name], 120), C.short(p[name], 120)))
+        if r.get('junction_step'):
+            P('impl-vs-spec', 'the sampled chain of the two trajectories takes the step %s>%s that occurs only across their boundary '
+              '(after the joined frames had been sampled)' % tuple(case['junction']))
         io = r.get('its_order')
         if io and isinstance(io['both'], list) and all(isinstance(x, list) for x in io['single']) and not _close(io['both'], io['single']):
             P('impl-vs-spec', 'implied_timescales for the lag list [long, short] %s differs from the rows of the single-lag calls %s' % (
